@@ -4,6 +4,7 @@ package gomatrixserverlib
 
 import (
 	"encoding/json"
+	"errors"
 	"time"
 
 	"github.com/matrix-org/gomatrixserverlib/spec"
@@ -126,4 +127,50 @@ func vp_C04_hashfail() {
 	}
 	vpReach("redacted", got.Redacted())
 	vpReach("intact", !got.Redacted())
+}
+
+// vp:check C04 both configs=version:1|4|10|12 K=12 timeout=900
+// vp_C04_wide_field: the same guarantee for events that are "too large but persistable": a type or state key of more
+// than 255 bytes but at most 255 code points (150 two-byte characters) makes parsing return the event together with a
+// persistable validation error - and when the content hash fails, that event must still be the redacted form.
+func vp_C04_wide_field() {
+	ver := RoomVersion(vpConfig("version"))
+	verImpl, err := GetRoomVersion(ver)
+	vpAssume(err == nil)
+	_, privB := vpKey("origin")
+	eb := vpProtoBuilder(verImpl, "e")
+	ev, err := eb.Build(time.Unix(1700000000, 0), "x", "ed25519:1", ed25519.PrivateKey(privB))
+	vpAssume(err == nil)
+	var m map[string]spec.RawJSON
+	vpAssume(json.Unmarshal(ev.JSON(), &m) == nil)
+	wide := ""
+	for i := 0; i < 150; i++ {
+		wide += "ä"
+	}
+	field := vpChoice("wide_field", "type", "state_key")
+	m[field] = vpJVal(wide) // alters hashed material: the content hash fails
+	m["foo"] = vpJVal("bar")
+	var c map[string]spec.RawJSON
+	_ = json.Unmarshal(m["content"], &c)
+	c["body"] = vpJVal("injected")
+	m["content"], _ = json.Marshal(c)
+	raw, err := json.Marshal(m)
+	vpAssume(err == nil)
+	got, err := verImpl.NewEventFromUntrustedJSON(raw)
+	var verr EventValidationError
+	persistable := err != nil && errors.As(err, &verr) && verr.Persistable
+	vpAssert("too-large-but-persistable", persistable && got != nil)
+	if !persistable || got == nil {
+		return
+	}
+	vpAssert("redacted-flag", got.Redacted())
+	var gc map[string]spec.RawJSON
+	vpAssert("content-parses", json.Unmarshal(got.Content(), &gc) == nil)
+	_, hasBody := gc["body"]
+	vpAssert("injected-content-hidden", hasBody == vpKeepContent(vpRedactAlgo(ver), got.Type(), "body"))
+	var top map[string]spec.RawJSON
+	vpAssert("json-parses", json.Unmarshal(got.JSON(), &top) == nil)
+	_, hasFoo := top["foo"]
+	vpAssert("extra-top-key-hidden", !hasFoo)
+	vpReach("done", true)
 }
